@@ -516,10 +516,47 @@ class AbsStack:
         return StackIt(self)
 
     def slice(self, I, lo, hi):
-        return Opaque("stack_slice")
+        return StackSlice(self, lo, hi)
 
     def to_vec(self, I):
         return Opaque("stack_copy")
+
+
+class StackSlice:
+    """stack[lo..hi] with bounds that are integers (from the bottom) or len+off terms (from the top): first/last/len/is_empty"""
+
+    def __init__(self, st, lo, hi):
+        self.st, self.lo, self.hi = st, lo, hi
+
+    def __repr__(self):
+        return "stack[%r..%r]" % (self.lo, self.hi)
+
+    def length(self, I):
+        return I.binop("Sub", self.hi, self.lo, "usize")
+
+    def is_empty(self, I):
+        return I.truth(I.binop("Eq", self.length(I), 0, "usize"))
+
+    def _dec(self, I, x):
+        return StackLen(x.st, x.off - 1) if isinstance(x, StackLen) else I.binop("Sub", x, 1, "usize")
+
+    def first(self, I):
+        if self.is_empty(I):
+            return none()
+        return self.st.get(I, self.lo)
+
+    def last(self, I):
+        if self.is_empty(I):
+            return none()
+        return self.st.get(I, self._dec(I, self.hi))
+
+    def get(self, I, idx):
+        if isinstance(idx, int) and idx == 0:
+            return self.first(I)
+        raise I.unanalysable("get(%r) on a stack sub-slice" % (idx,))
+
+    def slice(self, I, lo, hi):
+        raise I.unanalysable("sub-slice of a stack sub-slice")
 
 
 class SlotRef(Box_):
@@ -1148,6 +1185,13 @@ def generic_unknown(prog, name, ty, leaves, depth=0):
         v = Sym(name, (), ty, attrs={"name": name})
     elif ty.startswith("std::option::Option<") and ty[len("std::option::Option<"):-1] in INT_TYPES:
         v = LazyOption(name, ty[len("std::option::Option<"):-1])
+    elif ty in ("std::vec::Vec<u8>", "std::string::String"):
+        v = Bytes([("pay", Payload("str" if ty.endswith("String") else "bytes", range(32, 127) if ty.endswith("String") else range(256),
+                                   Sym(name + ".len", (), "usize", 0, 1 << 20), origin="unknown_field:" + name))], ty.endswith("String"))
+    elif ty.startswith("std::option::Option<") and ty[len("std::option::Option<"):-1] in ("std::vec::Vec<u8>", "std::string::String", "bool", "f64"):
+        inner_leaves = []
+        v = LazyOption(name, "usize")
+        v.inner = generic_unknown(prog, name + ".some", ty[len("std::option::Option<"):-1], inner_leaves, depth + 1)
     else:
         try:
             adt = prog.adt_of(ty)
